@@ -151,6 +151,18 @@ def run(res):
     res.obligations += ths
     res.discharged += ths
     res.coverage["print_assumptions"] = rep
+    # the streams that need nothing but the real compiler come first: they are judged even when the in-process harness no longer
+    # builds against /repo
+    name_v = "direct:every form of asserted expression under every template compiles (rustc)"
+    res.obligations.append(name_v)
+    vbad = rustc_value_forms(res)
+    if not vbad:
+        res.discharged.append(name_v)
+    name_m = "direct:patterns stamped out by macro_rules! repetitions (sibling sub-patterns made of the same tokens) compile and run (rustc)"
+    res.obligations.append(name_m)
+    mbad = rustc_repeated_patterns(res)
+    if not mbad:
+        res.discharged.append(name_m)
     recs = expstage.run_stage(res, res.tier, res.seed, FIXED)
     name = "correspondence:expander(token-exact expansion, node table)"
     res.obligations.append(name)
@@ -214,18 +226,7 @@ def run(res):
                                "difference": maclib.first_diff(f.tokens, g[4]) if g[0] == "ok" else g[1][:300]})
     res.streams["history"] = {"fresh_process_comparisons": len(sample), "after_corrupted_invocations": len(followers),
                               "of_which_rejected": n_rej, "differences": hist_bad}
-    name_v = "direct:every form of asserted expression under every template compiles (rustc)"
-    res.obligations.append(name_v)
-    vbad = rustc_value_forms(res)
-    failing += vbad
-    if not vbad:
-        res.discharged.append(name_v)
-    name_m = "direct:patterns stamped out by macro_rules! repetitions (sibling sub-patterns made of the same tokens) compile and run (rustc)"
-    res.obligations.append(name_m)
-    mbad = rustc_repeated_patterns(res)
-    failing += mbad
-    if not mbad:
-        res.discharged.append(name_m)
+    failing += vbad + mbad
     expstage.report_disagreement(res, name, dis, failing > 0 or hist_bad > 0)
     if not dis and not failing and not hist_bad:
         res.discharged.append(name)
